@@ -1040,7 +1040,7 @@ def explore(ctx, factor, bs):
     ok = ctx.dist.get("model:ok", 0)
     tot = ok + ctx.dist.get("model:unsupported", 0) + ctx.dist.get("model:error", 0)
     ctx.notes["fragment_share"] = {"model_answered": ok, "converted_by_impl": tot, "share": round(ok / tot, 4) if tot else None}
-    ctx.notes["exhaustive"] = {
+    ctx.notes["exhaustive_substream"] = {
         "translation_subsets_per_triple": 512,
         "sheet_name_radius1": ctx.dist.get("misspell:radius1_exhaustive", 0),
         "language_labels": ctx.dist.get("iana:labels_enumerated", 0),
